@@ -11,8 +11,8 @@ MQ = 'slimta/queue/__init__.py'
 T.alias('Meta', 'Dict[Str, Union[Int, Real]]')
 klass('DictStorage', ['QueueStorage'], module=MD,
       fields={'env_db': 'Dict[Str, Envelope]', 'meta_db': 'Dict[Str, Meta]'})
-extern('uuid.uuid4', params={}, returns='UUID', ensures=['result != None', 'fresh(result)'],
-       notes='uuid.uuid4(): a new UUID object (its hex string is arbitrary; freshness of ids is checked by the loop in write())')
+extern('uuid.uuid4', params={}, returns='UUID', ensures=['result != None', 'fresh(result)', 'len(result.hex) == 32'],
+       notes='uuid.uuid4(): a new UUID object (its hex string is an arbitrary string of 32 characters; freshness of ids is checked by the loop in write())')
 
 predicate('DICT_ok(s)',
           's.env_db != None and s.meta_db != None and s.env_db is not s.meta_db '
